@@ -240,7 +240,7 @@ func (cap *commandArgParser) parseInputBlock(args redisArgs, argIndex int, input
 		} else {
 			if arg.Optional && arg.isToken() {
 				// optional value args that have tokens can be reordered
-				args = append(args, skippedOptionals...)
+				args = append(args[:len(args):len(args)], skippedOptionals...) // never write into the shared command definition
 				skippedOptionals = redisArgs{}
 			}
 			inputsUsed += subInputsUsed
@@ -307,7 +307,7 @@ func (cap *commandArgParser) parseEachInput(args redisArgs, input ...respValue) 
 		} else {
 			if arg.Optional && arg.isToken() {
 				// optional args that have tokens can be reordered
-				args = append(args, skippedOptionals...)
+				args = append(args[:len(args):len(args)], skippedOptionals...) // never write into the shared command definition
 				skippedOptionals = redisArgs{}
 			}
 
